@@ -165,8 +165,8 @@ impl LunarFestival {
       });
     }
     reg = Regex::new(r"@\d{2}1\d{2}").unwrap();
-    if reg.is_match(LUNAR_FESTIVAL_DATA) {
-      let data: &str = reg.find(LUNAR_FESTIVAL_DATA).unwrap().as_str();
+    for matcher in reg.find_iter(LUNAR_FESTIVAL_DATA) {
+      let data: &str = matcher.as_str();
       let di: &str = &data[4..data.len()];
       let term_index: usize = usize::from_str(di).unwrap();
       let solar_term: SolarTerm = SolarTerm::from_index(year, term_index as isize);
